@@ -245,7 +245,14 @@ def are_d_separated(
 
     # Filter to ancestors
     keep = graph.ancestors_inclusive(named)
-    evidence_graph = graph.subgraph(keep).moralize().disorient()
+    ancestral_graph = graph.subgraph(keep)
+    evidence_graph = ancestral_graph.moralize().disorient()
+    # A bidirected edge stands for a latent common parent, so every two nodes joined by a
+    # path on which all inner nodes are colliders must be married as well: these are exactly
+    # the pairs inside a district together with the district's parents.
+    for district in ancestral_graph.districts():
+        married = set(district) | ancestral_graph.get_markov_pillow(district)
+        evidence_graph.add_edges_from(combinations(married, 2))
 
     keep = set(evidence_graph.nodes) - set(conditions)
     evidence_graph = evidence_graph.subgraph(keep)
